@@ -426,11 +426,18 @@ def run(ctx):
             dist[label] = dist.get(label, 0) + 1
             for m, keep in (('L', 0), ('S', 0), ('S', 1)) + ((('D', 1),) if rng.random() < 0.15 else ()):
                 cases.append(dict(method=m, keep=keep, geom=g, label=label))
+            # the same request made through other histories of the params object (setter order, repeated setters,
+            # one object reused for several calls): judged for the settings requested LAST
+            collapsing = label.split('+')[0] in ('zero-area', 'point-ring', 'zero-length-line', 'ring-point', 'ring-spike', 'fold-back') or label.startswith(('related', 'collection', 'multiline', 'multipolygon-mixed'))
+            for _ in range(2 if collapsing else (1 if rng.random() < 0.3 else 0)):
+                hist = gen_history(rng)
+                m, keep = history_settings(hist)
+                cases.append(dict(method=m, keep=keep, hist=hist, geom=g, label=label))
         ctx.notes['distribution'] = dist
     judge_all(ctx, drv, cases, shrink=not ctx.replay)
     st = ctx.notes.get('stats', {})
     if not ctx.replay:
-        for need in ['invalid-input', 'valid-input', 'nonfinite', 'collapse-kept', 'collapse-dropped', 'collection', 'table', 'related-multi']:
+        for need in ['invalid-input', 'valid-input', 'nonfinite', 'collapse-kept', 'collapse-dropped', 'collection', 'table', 'related-multi', 'history', 'history:keep-before-method', 'history:reused-object']:
             if st.get(need, 0) == 0:
                 ctx.broken.append(dict(kind='generator', name='distribution ' + need, detail='no case of class %s was generated' % need))
     for c in cases[:4]:
@@ -461,7 +468,34 @@ def fix_request(m, keep, iv, g, r, K):
     return 'FIX %s %d %d %d %d | %s | %s' % (m, keep, iv, M * M, 10 ** 18, ' '.join(tokens(g, K)), ' '.join(tokens(r, K)))
 
 
+def gen_history(rng):
+    """a history of GEOSMakeValidParams setter calls on one object (K0/K1 keepCollapsed, ML/MS method, C an intermediate repair)"""
+    K = lambda: 'K%d' % rng.randint(0, 1)
+    M = lambda: rng.choice(['MS', 'MS', 'ML'])
+    fam = rng.randint(0, 7)
+    if fam == 0: h = [K(), M()]                       # keepCollapsed, then the method
+    elif fam == 1: h = [M(), K()]                     # the method, then keepCollapsed
+    elif fam == 2: h = [K(), K(), M()] if rng.random() < 0.5 else [M(), K(), K()]      # a setter twice
+    elif fam == 3: h = [M(), K(), M()]                # the method selected again on a configured object
+    elif fam == 4: h = [K(), M(), 'C', K()]           # reused: one repair, another keepCollapsed request, next repair
+    elif fam == 5: h = [M(), K(), 'C', M()]           # reused: method selected again between two repairs
+    elif fam == 6: h = [K(), 'C', M(), 'C', K(), M()]
+    else: h = [rng.choice([K(), M(), 'C']) for _ in range(rng.randint(1, 6))]
+    return ','.join(h)
+
+
+def history_settings(hist):
+    """the settings requested last: GEOSMakeValidParams_create_r starts with the linework method and keepCollapsed = 0"""
+    m, keep = 'L', 0
+    for it in hist.split(','):
+        if it in ('K0', 'K1'): keep = int(it[1])
+        elif it in ('ML', 'MS'): m = it[1]
+    return m, keep
+
+
 def harness_line(c):
+    if c.get('hist'):
+        return 'MV H:%s %d %s' % (c['hist'], c['keep'], wkt(c['geom']))
     return 'MV %s %d %s' % (c['method'], c['keep'], wkt(c['geom']))
 
 
@@ -619,8 +653,8 @@ def judge_all(ctx, drv, cases, shrink=False):
             rc = shr or c
             rl = harness_line(rc)
             ctx.violation('%s%d_%d_%s' % (c['method'], c['keep'], i, name.replace('-', '_')),
-                          dict(clause=name, why=why, case=dict(method=c['method'], keep=c['keep'], geom=jsonable(c['geom'])),
-                               shrunk=dict(method=rc['method'], keep=rc['keep'], geom=jsonable(rc['geom'])) if shr else None,
+                          dict(clause=name, why=why, case=dict(method=c['method'], keep=c['keep'], hist=c.get('hist'), geom=jsonable(c['geom'])),
+                               shrunk=dict(method=rc['method'], keep=rc['keep'], hist=rc.get('hist'), geom=jsonable(rc['geom'])) if shr else None,
                                request=rl, implementation=ctx.run_lines([HEXE], [rl], timeout=60)[0][:2500],
                                checker_request=(mres.get(i) or ('', ''))[0][:2500], checker_answer=(mres.get(i) or ('', ''))[1][:200],
                                replay="echo '%s' | %s" % (rl, HEXE), seed=ctx.seed),
@@ -653,6 +687,10 @@ def judge_case(ctx, c, line, o, pr, mres, tres, st):
     fin = finite(g)
     if not fin: st('nonfinite')
     if has_collection(g): st('collection')
+    if c.get('hist'):
+        st('history'); hh = c['hist'].split(',')
+        if any(a[0] == 'K' and any(b[0] == 'M' for b in hh[i + 1:]) for i, a in enumerate(hh)): st('history:keep-before-method')
+        if 'C' in hh: st('history:reused-object')
     if str(c.get('label', '')).startswith('related-'): st('related-multi')
     f9 = find_known(ctx, 'F9') if (lw and not fin) else None
     f2 = find_known(ctx, 'C17-F2') if (m == 'S' and ring_self_overlap(strip_nonfinite(g))) else None
